@@ -776,7 +776,7 @@ int cmd_run(const Args &a) {
     for (uint64_t h : co.nontrivial_hashes) hashes.push_back(h);
     if (!only.empty() || (audit_every > 0 && run % audit_every == 0))
       fprintf(out, "H %ld %016llx %016llx %016llx\n", run, (unsigned long long)co.plan_hash, (unsigned long long)co.hash, (unsigned long long)co.obs);
-    if (samples.size() < 2 && co.nontrivial > 0 && (run % 97 == 0 || i == 0)) {
+    if (samples.size() < 2 && co.nontrivial > 0 && (run % 97 == 0 || i == 0) && gp.variant != "giant") {  // (a giant plan is tens of megabytes of text)
       Plan sp = generate(gp);
       samples.push_back(plan_to_json(sp));
     }
